@@ -240,9 +240,25 @@ def _check_source_var(ctx, rid, m, f, name, hopname, fallback_params=()):
                     why = f"coercion {norm(v_)}"
                     continue
                 if isinstance(v_, ast.BoolOp) and isinstance(v_.op, ast.Or) and is_name(v_.values[0], name):
+                    if name == "retry":
+                        # a user-supplied decorator object is a value, not a flag: substituting on truthiness drops a
+                        # callable whose __bool__/__len__ says False (calls then run once while modified-time queries retry)
+                        ok = False
+                        why = (f"`{norm(v_)}` replaces a falsy custom retry decorator by the default: the decorator the user passed "
+                               f"is silently not applied to calls and store operations (test `is None` instead)")
+                        break
                     why = f"default {norm(v_)}"
                     continue
                 if unset and (not fallback_params or (isinstance(v_, ast.Name) and v_.id in fallback_params)):
+                    if name == "retry":
+                        # for a user-supplied decorator object 'unset' must mean `is None`, not falsy
+                        raw = E.path_condition(scope.module, st_, scope.node)
+                        truthy = [t for t, pol in raw if isinstance(E._positive(t, pol)[0], ast.Name) and norm(E._positive(t, pol)[0]) == name]
+                        if truthy:
+                            ok = False
+                            why = (f"`if not {name}` replaces a falsy custom retry decorator by the default: the decorator the user passed "
+                                   f"is silently not applied to calls and store operations (test `is None` instead)")
+                            break
                     why = f"fallback to {norm(v_)} exactly when unset"
                     continue
                 ok = False
